@@ -47,7 +47,7 @@ def _restart():
     import frontend.server.connector as CN
     SM = FE.FIX["mods"][1]
     rt = aio.reset()
-    CN._sse_service_manager = SM.ServicesManager()
+    FE.reset_server()
     W.WORLD["rt"] = rt
     W.WORLD["conns"] = []
     return rt
